@@ -27,6 +27,11 @@ use verif_harness::{hex::hex, prng::Rng, trace::tr, typed::*};
 // ------------------------------------------------------------------------------------------
 
 const MAXI: usize = 150;
+
+thread_local! {
+    /// which receive API the mpsc receiver of the current case uses (0 recv, 1 try_recv, 2 recv_many, 3 poll_recv)
+    static MPSC_RMODE: std::cell::Cell<u64> = const { std::cell::Cell::new(0) };
+}
 type MTx = rch::mpsc::Sender<Item, codec::Default, 2>;
 type MRx = rch::mpsc::Receiver<Item, codec::Default, 2, MAXI>;
 type OTx = rch::oneshot::Sender<Item>;
@@ -455,12 +460,52 @@ impl Rx {
                 Some(Ok(None)) => Got::Eos,
                 Some(Err(e)) => Got::Err(lr_recv_kind(&e).into(), e.is_final()),
             },
-            Rx::Mpsc(rx) => match CancelAt::new(rx.recv(), cancel).await {
-                None => Got::Cancelled,
-                Some(Ok(Some(it))) => Got::Value(it),
-                Some(Ok(None)) => Got::Eos,
-                Some(Err(e)) => Got::Err(mpsc_recv_kind(&e), e.is_final()),
-            },
+            Rx::Mpsc(rx) => {
+                // the receive API used is a function of the case: recv / try_recv / recv_many / poll_recv
+                let mode = if cancel.is_some() { 0 } else { MPSC_RMODE.with(|m| m.get()) };
+                match mode {
+                    1 => {
+                        for _ in 0..40 {
+                            match rx.try_recv() {
+                                Ok(it) => return Got::Value(it),
+                                Err(rch::mpsc::TryRecvError::Empty) => tokio::task::yield_now().await,
+                                Err(rch::mpsc::TryRecvError::Closed) => return Got::Eos,
+                                Err(e) => {
+                                    let e: Result<rch::mpsc::RecvError, _> = e.try_into();
+                                    return match e {
+                                        Ok(e) => Got::Err(mpsc_recv_kind(&e), e.is_final()),
+                                        Err(_) => Got::Err("tryrecv-other".into(), false),
+                                    };
+                                }
+                            }
+                        }
+                        match rx.recv().await {
+                            Ok(Some(it)) => Got::Value(it),
+                            Ok(None) => Got::Eos,
+                            Err(e) => Got::Err(mpsc_recv_kind(&e), e.is_final()),
+                        }
+                    }
+                    2 => {
+                        let mut buf = Vec::new();
+                        match rx.recv_many(&mut buf, 1).await {
+                            Ok(0) => Got::Eos,
+                            Ok(_) => Got::Value(buf.pop().unwrap()),
+                            Err(e) => Got::Err(mpsc_recv_kind(&e), e.is_final()),
+                        }
+                    }
+                    3 => match std::future::poll_fn(|cx| rx.poll_recv(cx)).await {
+                        Ok(Some(it)) => Got::Value(it),
+                        Ok(None) => Got::Eos,
+                        Err(e) => Got::Err(mpsc_recv_kind(&e), e.is_final()),
+                    },
+                    _ => match CancelAt::new(rx.recv(), cancel).await {
+                        None => Got::Cancelled,
+                        Some(Ok(Some(it))) => Got::Value(it),
+                        Some(Ok(None)) => Got::Eos,
+                        Some(Err(e)) => Got::Err(mpsc_recv_kind(&e), e.is_final()),
+                    },
+                }
+            }
         }
     }
 
@@ -674,7 +719,10 @@ async fn run_stream_case(case: Rc<Case>) {
             tr(format!("send 0 {} res={}", bt.line, res));
             progress();
             if res != "ok" {
+                // (no virtual sleep any more: the receiver may hold a helper thread for a streamed item that the
+                // close cut short; it is released only by the sender's next message or its drop)
                 stopped = true;
+                break;
             }
             k += 1;
             // virtual sleep: returns once everything else is idle *and* no helper thread is outstanding
@@ -887,6 +935,9 @@ async fn run_mpsc_case(case: Rc<Case>) {
                     }
                     progress();
                     k += 1;
+                    if stopped {
+                        break;
+                    }
                     tokio::time::sleep(Duration::from_millis(1)).await;
                 }
                 if !stopped {
@@ -1202,6 +1253,7 @@ async fn run_bin_case(case: Rc<Case>) {
 
 fn run_case(case: Case) -> Vec<String> {
     clear_fails();
+    MPSC_RMODE.with(|m| m.set(if case.name.starts_with("fixed") || case.name.starts_with("sweep") { 0 } else { case.seed % 4 }));
     if let Some(o) = case.ops.iter().find(|o| o.gate) {
         set_de_gate(Some(o.tag));
     }
